@@ -3,7 +3,7 @@
   satisfying `Mutex.Inv` (the C05 theorems are stated for `run (init n 1) sched` only), and the link lemmas between
   RwLock program points and the projections.
 -/
-import MayVerif.Proof.Sync.RwLock.Wr0
+import MayVerif.Proof.Sync.RwLock.Step
 namespace MayVerif.RwLock
 open MayVerif.Mutex (upd)
 
@@ -127,7 +127,7 @@ end
 
 /-- the actor is inside the rlock critical section: the only place where `*r` is read or written -/
 def inRlock : Pc → Bool
-  | .rlp _ => true
+  | .rlp _ | .rld _ | .rinc _ _ | .rdec | .rck _ => true
   | .gld o | .glk o _ | .psn o => reader o
   | .gul o _ => o == .dropR
   | _ => false
@@ -161,6 +161,9 @@ theorem try_write_succeeds (s : St) (t : Nat) (ht : t < s.n) (hp : s.pcs t = .id
   obtain ⟨n, sh, pcs⟩ := s
   simp only at ht hp hc hw
   simp [run, runG, stepG, tstepG, ht, hp, upd, hc, hw, Mutex.tstep, acquired, reader, blocking]
+
+/-- `k` plain steps of actor `t` (for writing schedules; steps of an actor that has gone idle are disabled and skipped) -/
+def gos (t k : Nat) : List (Nat × Env) := List.replicate k (t, .go)
 
 theorem quiet_gpc' (pc : Pc) (h : quiet pc = true) :
     gpc pc = .idle ∨ ∃ b, gpc pc = .w5park b ∧ parkedGate pc = some b := by
